@@ -436,6 +436,11 @@ func (p *parser) stmt() (*Stmt, *lexErr) {
 			if plus.K != KUnq || plus.Text != "+" {
 				break
 			}
+			if p.i+1 >= len(p.toks) && p.lerr != nil {
+				// what stands behind the "+" could not be read as a token at all (a quote or
+				// comment that is never closed): that is what is wrong with the text
+				return nil, p.lerr
+			}
 			if p.i+1 >= len(p.toks) || p.toks[p.i+1].K != KStr {
 				break
 			}
